@@ -324,11 +324,11 @@ FIELDS = {
                ("noise_model", [NoiseModel, lambda: NoiseModel(relaxation_rate=0.5, dephasing_rate=0.25)]),
                ("extra_option", [None, 3]), ("sampling_rate", [1.0, 0.5])],
     "State": [("eigenstates", [("r", "g"), ("g", "h"), ("r", "g", "h")]), ("n_qudits", [1, 2, 3]),
-              ("amplitudes", ["one", "real", "imag"])],
+              ("amplitudes", ["one", "real", "imag", "tiny", "tinier"])],
     "Operator": [("eigenstates", [("r", "g"), ("r", "g", "h")]), ("n_qudits", [2, 3]),
-                 ("operations", ["one", "complex", "product"])],
+                 ("operations", ["one", "complex", "product", "tiny"])],
     "Results": [("atom_order", [("q0", "q1"), ("b", "a", "c")]), ("total_duration", [100, 1000]),
-                ("content", ["empty", "float", "counters", "several", "complex"])],
+                ("content", ["empty", "float", "counters", "several", "complex", "complex-tiny"])],
 }
 # elidable field -> is the key present in the document (None: not observable for this class)
 OBS_KINDS = ["bitstrings", "expectation", "fidelity", "occupation", "correlation_matrix", "energy",
@@ -439,7 +439,10 @@ def build_detmap(b, ids):
 def make_state(cls, eig, n, kind):
     s1 = eig[0] * n
     s2 = eig[1] + eig[0] * (n - 1)
-    amps = {"one": {s1: 1.0}, "real": {s1: 0.6, s2: 0.8}, "imag": {s1: 0.6, s2: 0.8j}}[kind]
+    # "tiny" / "tinier": imaginary or real parts far below any closeness tolerance, still exact floats
+    amps = {"one": {s1: 1.0}, "real": {s1: 0.6, s2: 0.8}, "imag": {s1: 0.6, s2: 0.8j},
+            "tiny": {s1: 0.6 + 5e-9j, s2: 5e-9 + 0.8j},
+            "tinier": {s1: 0.6 + 1e-12j, s2: 0.8 - 1e-300j}}[kind]
     return cls.from_state_amplitudes(eigenstates=eig, amplitudes=amps)
 
 
@@ -449,7 +452,9 @@ def make_operator(cls, eig, n, kind):
     Z = {a + a: 1.0, c + c: -1.0}
     ops = {"one": [(1.0, [(X, [0])])],
            "complex": [(0.5, [({a + a: 1.0}, [0])]), (0.25j, [({c + a: 1.0j, a + c: 2.0}, [1])])],
-           "product": [(2.0, [(X, list(range(n - 1))), (Z, [n - 1])])]}[kind]
+           "product": [(2.0, [(X, list(range(n - 1))), (Z, [n - 1])])],
+           "tiny": [(1.0 + 5e-9j, [({a + c: 5e-9 + 1.0j, c + a: 1e-12j}, [0])]),
+                    (-1e-300j, [({a + a: 1.0, c + c: 2.0 - 5e-9j}, [1])])]}[kind]
     return cls.from_operator_repr(eigenstates=eig, n_qudits=n, operations=ops)
 
 
@@ -529,6 +534,10 @@ def fill_results(res, content):
     elif content == "complex":
         res._store(observable=Expectation(make_operator(OperatorRepr, ("r", "g"), 2, "one")),
                    time=1.0, value=0.5 + 0.25j)
+    elif content == "complex-tiny":
+        o = Expectation(make_operator(OperatorRepr, ("r", "g"), 2, "one"))
+        for t, v in ((0.25, 1.0 + 5e-9j), (0.5, 5e-9 + 1.0j), (0.75, 1e-12j), (1.0, -1e-300j)):
+            res._store(observable=o, time=t, value=v)
     return res
 
 
@@ -562,7 +571,7 @@ def compare_objects(out, cls, pt, orig, back, extra_sig=None, eq=True, strids=Fa
     if d is not None:
         path, owner, x, y = d
         sig.update({"field": str(next((p for p in path if isinstance(p, str)), "")),
-                    "leaf": leaf_name(path), "owner": owner})
+                    "leaf": leaf_name(path), "owner": owner, "decoded": type(y).__name__})
         out.report(sig, {"point": pt, "path": list(path), "original": short(x), "decoded": short(y)})
         return False
     if eq and not strids:
@@ -891,7 +900,9 @@ NVALUE = {"runs": 10, "samples_per_run": 2, "state_prep_error": 0.25, "p_false_p
 OP2A = ((0.0, 1.0), (0.0, 0.0))
 OP2B = ((1.0, 0.0), (0.0, -1.0j))
 OP3 = ((0.0, 0.0, 1.0), (0.0, 0.5, 0.0), (0.0, 0.0, 0.0))
-EFF = {2: ((0.5,), (OP2A,)), 3: ((0.5, 0.25), (OP2A, OP2B)), 4: ((0.125,), (OP3,))}
+OP2T = ((1.0 + 5e-9j, 5e-9 + 1.0j), (1e-12j, -1e-300j))    # tiny imaginary / real parts, exact floats
+EFF = {2: ((0.5,), (OP2A,)), 3: ((0.5, 0.25), (OP2A, OP2B)), 4: ((0.125,), (OP3,)),
+       5: ((0.5,), (OP2T,))}
 SIM_NAME = {"state_prep_error": "eta", "p_false_pos": "epsilon", "p_false_neg": "epsilon_prime"}
 TYPE_PARAMS = {"SPAM": ["state_prep_error", "p_false_pos", "p_false_neg"],
                "amplitude": ["laser_waist", "amp_sigma"],
@@ -1348,7 +1359,7 @@ def run(tier):
     # ---- 1. Elision: three TLC runs (small classes exhaustively; channels; devices)
     groups = [
         ("small", ["EOM", "Layout", "Register", "DetMap", "Obs", "Config", "State", "Operator",
-                   "Results"], 5, 99),
+                   "Results"], 6, 99),
         ("channels", ["ChanGlobal", "ChanLocal", "DMM"], 3, 2 if quick else 99),
         ("devices", ["Device", "VirtualDevice"], 3 if quick else 4, 0 if quick else 1),
     ]
@@ -1391,7 +1402,8 @@ def run(tier):
         # parameters given, and a third / half of the points where the model predicts the lossy decode
         given = sum(1 for v in p["a"] if v != 1)
         p["j"] = (n % every == 0 or given <= (2 if quick else 3)
-                  or (bool(p["gap"]) and n % (3 if quick else 2) == 0))
+                  or (bool(p["gap"]) and n % (3 if quick else 2) == 0)
+                  or (p["a"][12] == 5 and n % 3 == 0))       # operators with tiny imaginary parts
     before = agg["tests"]
     run_pool(noise_job, [("noise", ch, every) for ch in chunks(pts, 200)], V, agg)
     tot_states += res.distinct
